@@ -76,7 +76,20 @@ func extra() {
 		}
 		return true
 	})
-	fmt.Fprintf(&out, "def dnsStubbedUnlessEnabled : Bool := %v\n", guarded)
+	// ... and that `if` is a statement of initFunMap's body itself (not the else-branch of another test)
+	direct := false
+	if ifm := funcDecl(eng, "Engine", "initFunMap"); ifm != nil && ifm.Body != nil {
+		for _, st := range ifm.Body.List {
+			if is, ok := st.(*ast.IfStmt); ok {
+				if un, ok := is.Cond.(*ast.UnaryExpr); ok && un.Op.String() == "!" {
+					if sel, ok := un.X.(*ast.SelectorExpr); ok && sel.Sel.Name == "EnableDNS" {
+						direct = true
+					}
+				}
+			}
+		}
+	}
+	fmt.Fprintf(&out, "def dnsStubbedUnlessEnabled : Bool := %v\n", guarded && direct)
 	// engine.go render: what the parse loop and the execute loop range over, and where that comes from
 	rf := funcDecl(eng, "Engine", "render")
 	var loops []string
